@@ -4,7 +4,7 @@ META = {
     "functions_encoded": ["rlib_rational::Rational::{new,new_int,floor,ceil,norm}", "Add/Sub/Mul/Div (by value, by reference) and assigning forms, Neg",
                           "Ord::cmp, PartialOrd::partial_cmp, derived Eq/PartialEq/Hash", "rlib_gcd::gcd"],
     "bounds": {"quick": "components |a|,|b|,|c|,|d| <= 7 at i8 and i16 (all operators), i64 (constructor, floor/ceil); denominators of either sign",
-               "thorough": "adds all operators at i64 (<=7), i16/i32 (<=10), i128 (<=5)"},
+               "thorough": "adds all operators at i64 (<=7), i16/i32 (<=10); new, *,/,neg, floor/ceil at i128 (<=5)"},
     "outside_claim": ["components up to 2^30 over i64 (Euclid with 64-bit symbolic division)", "overflow behaviour above the threshold", "Display/Debug/Show"],
     "stubs_and_assumes": ["exact value compared by cross-multiplication in a wider integer type", "lowest terms decided by the real gcd (itself decided in C11 on this range)"],
     "assumptions": ["Kani/CBMC translation of MIR is faithful"],
@@ -32,6 +32,7 @@ def obligations(tier, seed):
         add("r_i16b", "i16, |.|<=10", timeout=4000)
         add("r_i32", "i32, |.|<=10", timeout=4000)
         add("r_i64", "i64, |.|<=7", timeout=6000)
-        add("r_i128", "i128, |.|<=5", timeout=6000)
+        # i128: add_sub ran out of memory and order_eq_hash needs an unwinding bound of 17 for the 16-byte hasher writes: not claimed
+        add("r_i128", "i128, |.|<=5", timeout=6000, only=("new_canonical", "mul_div_neg", "floor_ceil"))
     obs.append(Ob("num", "rational::c07_twin_false", expect="fail", desc="deliberately false twin"))
     return obs
